@@ -9,6 +9,7 @@ GEN  : for three override sets, every schedule of <= N queries (single cell in t
 TRACE: query-heavy random traces with sizes/override-map probes after every query -> Trace_C04.
 """
 import json
+import os
 import random
 
 from harness import core, repo
@@ -193,6 +194,39 @@ def trace(run, w):
         run.traces_validated += 1
 
 
+def title_spellings(run):
+    """Addressing by sheet title denotes the sheet that HAS that title - also when the titles are digit strings that look like
+    (other) sheet indices, or differ from each other by a blank only. Every spelling of one coordinate must deliver the
+    same value, get_sheet by title and by index the same grid, and an override written through one spelling is read through all."""
+    for titles in (['1', '0', '2'], ['2', '1', '0'], ['Data', 'Data 2', 'Data2'], ['10', '01', '1']):
+        sheets = [(t, {(0, 0): 100 * (i + 1) + 1, (1, 0): 100 * (i + 1) + 2, (0, 1): f"='{titles[(i + 1) % 3]}'!A1+1"}) for i, t in enumerate(titles)]
+        path = os.path.join(run.scratch, 'c08_titles.xlsx')
+        py = os.path.join(run.scratch, 'c08_titles_gen.py')
+        repo.write_xlsx(path, sheets)
+        repo.Parser().set_excel_file_path(path).write_translation(py)
+        ex = repo.Executor().set_executed_class(class_file=py)
+        for step in ('workbook', 'override'):
+            if step == 'override':
+                ex.set_cells([repo.Cell(titles[1], 'B', '1', 777)])        # by title; sheet index 1
+            for i, t in enumerate(titles):
+                want = {(0, 0): 100 * (i + 1) + 1, (1, 0): 100 * (i + 1) + 2, (0, 1): 100 * ((i + 1) % 3 + 1) + 2}
+                if step == 'override' and i == 1:
+                    want[(1, 0)] = 777
+                got = {}
+                try:
+                    for (c, r), w in want.items():
+                        got[(c, r)] = [ex.get_cell(repo.Cell(i, c, r)).value, ex.get_cell(repo.Cell(t, repo.col_letters(c + 1), str(r + 1))).value,
+                                       ex.get_cell(repo.Cell(t, c, r)).value, ex.get_cells([repo.Cell(t, repo.col_letters(c + 1), str(r + 1))])[0].value,
+                                       ex.get_sheet(t)[r][c].value, ex.get_sheet(i)[r][c].value]
+                    bad = {f'{repo.col_letters(c + 1)}{r + 1}': v for (c, r), v in got.items() if any(x != want[(c, r)] for x in v)}
+                except Exception as e:  # noqa
+                    bad = {'raised': f'{type(e).__name__}: {e}'[:120]}
+                run.judge({'in': {'titles': titles, 'sheet': t, 'step': step}, 'obs': str(bad), 'kind': 'title_spellings'}, not bad,
+                          clause=f'sheets titled {titles}: cells of sheet {t!r} (index {i}) through [index, title+A1, title+numbers, get_cells, get_sheet(title), get_sheet(index)] '
+                                 f'after {step}: {bad}', part='title_spellings')
+                run.traces_validated += 1
+
+
 def check(run):
     run.rule = ('query schedules enumerated by TLC (every sequence of <= N queries over 5 single cells, 2 cell lists, 2 '
                 'sheets, for 3 override sets), replayed on one real Executor with random addressing spellings; sizes and '
@@ -203,10 +237,14 @@ def check(run):
     mc(run)
     gen(run, w)
     trace(run, w)
+    title_spellings(run)
 
 
 def replay(run, case):
     global _W
+    if case.get('kind') == 'title_spellings':
+        title_spellings(run)
+        return
     w = xc.World(run)
     _W = w
     if case.get('kind') == 'trace':
